@@ -272,15 +272,46 @@ func c21MatchMapper(fn *ssa.Function, cores map[*ssa.Function]bool) string {
 				continue
 			}
 			nret++
-			v := ret.Results[0]
+			// a result merged from several branches (`switch count { case 0: r = 0; default: r = … }; return r`) is
+			// judged per incoming branch, at the end of the block the value comes from
+			type cand struct {
+				v   ssa.Value
+				blk *ssa.BasicBlock
+				idx int
+			}
+			cands := []cand{{ret.Results[0], b, indexIn(b, in)}}
+			if phi, isPhi := ret.Results[0].(*ssa.Phi); isPhi {
+				cands = nil
+				for i, e := range phi.Edges {
+					p := phi.Block().Preds[i]
+					cands = append(cands, cand{e, p, len(p.Instrs) - 1})
+				}
+			}
+			for _, cd := range cands {
+				if why := c21MatchReturn(fn, cores, cd.v, cd.blk, cd.idx, limZero, limNonZero); why != "" {
+					return why
+				}
+			}
+		}
+	}
+	if nret == 0 {
+		return "no return found"
+	}
+	return ""
+}
+
+// c21MatchReturn judges one returned value (at instruction index idx of block b).
+func c21MatchReturn(fn *ssa.Function, cores map[*ssa.Function]bool, v ssa.Value, b *ssa.BasicBlock, idx int, limZero, limNonZero map[*ssa.BasicBlock]int) string {
+	{
+		{
 			if u, ok := constUint(v); ok {
 				if u != 0 {
 					return "returns a non-zero constant"
 				}
-				if lim, ok := limZero[b]; ok && indexIn(b, in) < lim {
+				if lim, ok := limZero[b]; ok && idx < lim {
 					return "returns 0 on a path where count may be non-zero"
 				}
-				continue
+				return ""
 			}
 			cv, ok := v.(*ssa.Convert)
 			if !ok || basicKind(cv.X.Type()) != types.Uint32 {
@@ -319,9 +350,6 @@ func c21MatchMapper(fn *ssa.Function, cores map[*ssa.Function]bool) string {
 				return "dividend is not a static CRC call"
 			}
 		}
-	}
-	if nret == 0 {
-		return "no return found"
 	}
 	return ""
 }
